@@ -308,6 +308,42 @@ CORNERS = [
         n = max(e, n)
     return (m, n, max(m, n, y))
 '''),
+    ('alias_then_rebind_in_branch', '''    ys = xs
+    if x > 0:
+        xs = [y, y, x]
+    ys[0] = x + 1
+    return (ys[0] + xs[0], ys[1], xs[2])
+'''),
+    ('alias_then_rebind_in_loop', '''    ys = xs
+    zs = ys
+    for i in range(2):
+        xs = [xs[0] + 1, y, y]
+    k = 0
+    while k < 2:
+        zs = [zs[1], zs[0], x]
+        with fp.INTEGER:
+            k = k + 1
+    return (ys[0], xs[0], zs[0] + ys[1])
+'''),
+    ('callee_writes_through_alias', '''    ys = xs
+    if y > 0:
+        xs = [x, x, x]
+    t = wr(ys, y)
+    return (ys[0] + t, xs[0], ys[1])
+'''),
+    ('callee_replaces_held_row', '''    xss = [[x, 2.0], [3.0, y]]
+    row = xss[1]
+    t = repl(xss, x)
+    return (row[0] + t, xss[1][0], row[1])
+'''),
+    ('descending_range', '''    acc = x
+    for i in range(5, 0, -2):
+        acc = acc + fp.round(i)
+    zs = [y * fp.round(i) for i in range(4, 1, -1)]
+    for i in range(0, 6, 4):
+        acc = acc * 2 + fp.round(i)
+    return (acc, zs[0], zs[2] + fp.round(len(zs)))
+'''),
     ('directed_minmax', '''    with F64Z:
         a = min(x, y, 1.0) + x
     with F64P:
@@ -317,8 +353,21 @@ CORNERS = [
 ]
 
 
+CORNER_PRELUDE = '''@fp.fpy(ctx=fp.FP64)
+def wr(zs: list[fp.Real], z: fp.Real) -> fp.Real:
+    zs[0] = z * 2
+    return zs[1]
+
+@fp.fpy(ctx=fp.FP64)
+def repl(zss: list[list[fp.Real]], z: fp.Real) -> fp.Real:
+    zss[1] = [z, z]
+    return z
+
+'''
+
+
 def corner_source(body: str) -> str:
-    return HEADER + '@fp.fpy(ctx=fp.FP64)\ndef f(x: fp.Real, y: fp.Real, xs: list[fp.Real]):\n' + body
+    return HEADER + CORNER_PRELUDE + '@fp.fpy(ctx=fp.FP64)\ndef f(x: fp.Real, y: fp.Real, xs: list[fp.Real]):\n' + body
 
 
 # ---------------------------------------------------------------------------------------------
